@@ -46,6 +46,10 @@ m = {
  "engines": [{
    "name": "axmc", "path": "/verif/mc", "serves_properties": sorted(CHECKS.keys()),
    "kind_free_text": "hand-rolled explicit-state model checker: iterative-deepening DFS with snapshot/restore and a visited table over canonical ledger state; the transition function is the real contract code from /repo's working tree running natively in the soroban test host, checked in lock-step against small Rust reference models; bounded-exhaustive input-space sweeps for the history-free properties"
+ }, {
+   "name": "stateright-crosscheck", "path": "/verif/mc/src/xcheck.rs",
+   "serves_properties": ["C02", "C03", "C06", "C08", "C15", "C16", "C17", "C18"],
+   "kind_free_text": "stateright 0.31 explicit-state BFS over the same scenarios (state = canonical key + shortest path, re-created by replay on thread-local hosts); run after the thorough tier of the fixpoint properties: unique state count must equal the explorer's and the always-property 'model and implementation agree' must hold"
  }],
  "checks": checks,
  "not_applicable": na,
